@@ -465,7 +465,9 @@ func (e *evaluator) ptr(n *spec.Node, data any, prior any, path string) any {
 		pp = obs.PtrV{Nil: true}
 	}
 	if e.env.Mode == Parse {
-		if IsAbsentParse(data) {
+		// a flat source (form, query, env) is itself the record of every struct: a pointer to a struct is present
+		flatRecord := e.env.Flat && path == "" && n.Elem.Kind == spec.Struct
+		if IsAbsentParse(data) && !flatRecord {
 			if eff.NotNil {
 				e.issue(XIssue{Path: testPath(path, eff.NotNilOpts), Code: reqCode(eff.NotNilOpts, "not_nil"), Dtype: n.Elem.DType(), Kind: "not_nil", Node: n, Opts: eff.NotNilOpts})
 			} else {
